@@ -30,7 +30,7 @@ theorem dottedName_cons (l : Bytes) (ls : List Bytes) (hl : l ≠ []) :
 theorem no_self_loop {m : Bytes} {n : Nat} {b b2 : UInt8} (h0 : m[n]? = some b) (hp : 192 ≤ b.toNat) (h1 : m[n + 1]? = some b2)
     (hs : (b.toNat % 64) * 256 + b2.toNat = n) (ls : List Bytes) (nx : Nat) : ¬ Denotes m n ls nx := by
   intro hd
-  obtain ⟨k, hk⟩ := hd.toN
+  obtain ⟨k, hh, hk⟩ := hd.toN
   cases hk with
   | root hz => rw [h0] at hz; cases hz; simp at hp
   | label hb _ h63 _ _ => rw [h0] at hb; cases hb; omega
@@ -47,7 +47,8 @@ theorem self_pointer_rejected (pre post : Bytes) (hp : pre.length < 16384) :
   | error e => exact ⟨e, rfl⟩
   | ok r =>
     obtain ⟨n, nx⟩ := r
-    obtain ⟨ls, hd, _, _⟩ := decodeName_complete _ _ _ _ h
+    obtain ⟨ls, ⟨_, hdh, _, _⟩, _⟩ := decodeName_complete _ _ _ _ h
+    have hd := hdh.toDenotes
     exfalso
     have e0 : pre ++ [b8 (192 + pre.length / 256), b8 pre.length] ++ post =
         pre ++ b8 (192 + pre.length / 256) :: (b8 pre.length :: post) := by simp
@@ -70,7 +71,8 @@ theorem out_of_range_rejected (m : Bytes) (off : Nat) (b b2 : UInt8) (h0 : m[off
   | error e => exact ⟨e, rfl⟩
   | ok r =>
     obtain ⟨n, nx⟩ := r
-    obtain ⟨ls, hd, _, _⟩ := decodeName_complete _ _ _ _ h
+    obtain ⟨ls, ⟨_, hdh, _, _⟩, _⟩ := decodeName_complete _ _ _ _ h
+    have hd := hdh.toDenotes
     exfalso
     cases hd with
     | root hz => rw [h0] at hz; cases hz; simp at hp
@@ -139,8 +141,31 @@ theorem a_record_ok (rr : RR) (ht : rr.type = 1) (hl : rr.rdata.length = 4) (hk 
 
 theorem aaaa_exact (rr : RR) (hl : rr.rdata.length = 16) : parseAAAA rr = .ok (.aaaa rr.name rr.rdata rr.ttl) := by
   unfold parseAAAA
-  simp [Gen.Dns.lenAAAA, hl, slice, pure, Except.pure]
-  exact List.take_of_length_le (by omega)
+  have hs : slice rr.rdata 0 16 = rr.rdata := by
+    simp only [slice, List.drop_zero]
+    exact List.take_of_length_le (by omega)
+  simp [Gen.Dns.lenAAAA, hl, copy_ok (show 0 + 16 ≤ rr.rdata.length by omega), hs, bind, Except.bind, pure, Except.pure]
+
+/-- tightness of the carve-out: every 4-byte A record inside `aRuleFires` IS rejected -/
+theorem a_rule_rejects (rr : RR) (ht : rr.type = 1) (hl : rr.rdata.length = 4) (hk : aRuleFires rr.rdata = true) :
+    validateRdata rr = .error .malicious := by
+  obtain ⟨name, type, cls, ttl, rdl, rdata⟩ := rr
+  dsimp only at ht hl hk ⊢
+  match rdata, hl with
+  | [b0, b1, b2, b3], _ =>
+    subst ht
+    have hr0 : rd [b0, b1, b2, b3] 0 = .ok b0 := rfl
+    have hr1 : rd [b0, b1, b2, b3] 1 = .ok b1 := rfl
+    have hr2 : rd [b0, b1, b2, b3] 2 = .ok b2 := rfl
+    have hr3 : rd [b0, b1, b2, b3] 3 = .ok b3 := rfl
+    simp only [aRuleFires, Bool.and_eq_true, decide_eq_true_eq] at hk
+    obtain ⟨⟨⟨hp, h1⟩, h2⟩, h3⟩ := hk
+    unfold validateRdata
+    dsimp only
+    rw [if_pos ⟨rfl, by decide⟩, if_neg (by simp [Gen.Dns.aLen])]
+    simp only [hr0, hr1, hr2, hr3, bind, Except.bind, hp, ↓reduceIte]
+    rw [if_pos]
+    exact ⟨by simpa [Gen.Dns.compressionMask, Gen.Dns.aPointerLimit] using h1, h2, h3⟩
 
 /-- RDATA of a TXT record: a sequence of character strings -/
 def encodeTxt : List Bytes → Bytes
@@ -170,6 +195,10 @@ theorem txt_exact (ts : List Bytes) (h : ∀ t ∈ ts, t.length < 256) : ∀ (pr
     have hfit : ¬ pre.length + 1 + (b8 t.length).toNat > (pre ++ encodeTxt (t :: ts)).length := by
       rw [hb, e0]; simp; omega
     simp only [hfit, ↓reduceIte]
+    have hcp : copy (pre ++ encodeTxt (t :: ts)) (pre.length + 1) (b8 t.length).toNat =
+        .ok (slice (pre ++ encodeTxt (t :: ts)) (pre.length + 1) (b8 t.length).toNat) := copy_ok (by omega)
+    rw [hcp]
+    dsimp only
     have hsl : slice (pre ++ encodeTxt (t :: ts)) (pre.length + 1) (b8 t.length).toNat = t := by
       rw [hb, e1]
       have hl : (pre ++ [b8 t.length]).length = pre.length + 1 := by simp
